@@ -59,8 +59,68 @@ static void on_event(const char* ev, const void* obj, long a, long b, long, doub
     }
 }
 
+// ---- "multi": tissues of four cells triangulated in parallel (run with several threads): a cell that cannot be triangulated (a cube
+// much smaller than the minimum edge length) at every list position, and an all-good control.  The failure must reach the caller as
+// the initialisation exception whichever thread met it; the good tissue must come back complete.
+static int run_multi(const char* out_path, const std::string& work) {
+    FILE* fo = fopen(out_path, "w");
+    for (int bad = -1; bad < 4; bad++) {
+        poly all; std::vector<size_t> first_face;
+        std::vector<poly> cubes;
+        for (int i = 0; i < 4; i++) {
+            poly m = voxel_surface({{0, 0, 0}});
+            const double side = i == bad ? 0.02 : 1.0;
+            for (size_t q = 0; q < m.pos.size() / 3; q++) { m.pos[3 * q] = m.pos[3 * q] * side + 3.0 * i; m.pos[3 * q + 1] *= side; m.pos[3 * q + 2] *= side; }
+            cubes.push_back(m);
+        }
+        const std::string path = work + "/multi_" + std::to_string(bad + 1) + ".vtk";
+        {
+            FILE* f = fopen(path.c_str(), "w");
+            size_t npts = 0; for (auto& m : cubes) npts += m.pos.size() / 3;
+            fprintf(f, "# vtk DataFile Version 4.2\nvtk output\nASCII\nDATASET UNSTRUCTURED_GRID\nPOINTS %zu float\n", npts);
+            for (auto& m : cubes) for (size_t i = 0; i < m.pos.size(); i++) fprintf(f, "%.9e%s", m.pos[i], (i % 3 == 2) ? "\n" : " ");
+            size_t total = 0; std::vector<size_t> ints;
+            for (auto& m : cubes) { size_t k = 1; for (auto& fc : m.faces) k += 1 + fc.size(); ints.push_back(k); total += k + 1; }
+            fprintf(f, "\nCELLS 4 %zu\n", total);
+            size_t off = 0;
+            for (size_t c = 0; c < cubes.size(); c++) {
+                fprintf(f, "%zu %zu ", ints[c], cubes[c].faces.size());
+                for (auto& fc : cubes[c].faces) { fprintf(f, "%zu ", fc.size()); for (unsigned n : fc) fprintf(f, "%zu ", (size_t)n + off); }
+                fprintf(f, "\n");
+                off += cubes[c].pos.size() / 3;
+            }
+            fprintf(f, "\nCELL_TYPES 4\n42\n42\n42\n42\n\nCELL_DATA 4\nFIELD FieldData 1\ncell_type_id 1 4 int\n0 0 0 0 \n");
+            fclose(f);
+        }
+        global_simulation_parameters gp;
+        gp.input_mesh_path_ = path; gp.output_folder_path_ = work + "/out";
+        gp.perform_initial_triangulation_ = true; gp.min_edge_len_ = 0.2;
+        gp.time_step_ = 1e-7; gp.damping_coefficient_ = 1; gp.simulation_duration_ = 1; gp.sampling_period_ = 1; gp.contact_cutoff_adhesion_ = gp.contact_cutoff_repulsion_ = 1e-7;
+        auto ct = std::make_shared<cell_type_parameters>();
+        ct->global_type_id_ = 0; ct->bulk_modulus_ = 1; ct->target_isoperimetric_ratio_ = 150;
+        face_type_parameters ft; ct->add_face_type(ft); ct->add_face_type(ft); ct->add_face_type(ft);
+        verif::hooks().seed = [](const char*) { static std::atomic<unsigned long long> n{0}; return 977ULL + (n++); };
+        std::string outcome = "completed"; size_t nret = 0, nnull = 0, nbad = 0;
+        try {
+            simulation_initializer si(gp, {ct}, false);
+            auto cells = si.get_cell_lst();
+            nret = cells.size();
+            for (auto& c : cells) { if (!c) { nnull++; continue; } if (!(c->get_nb_of_faces() >= 4) || !(c->get_volume() > 0.)) nbad++; }
+        }
+        catch (intialization_exception&) { outcome = "initialization_exception"; }
+        catch (std::exception&) { outcome = "other_std_exception"; }
+        std::remove(path.c_str());
+        vj::out o;
+        o.obj().key("op").str("multi").key("bad_position").i(bad).key("outcome").str(outcome).key("nreturned").i(nret).key("nnull").i(nnull).key("ninvalid").i(nbad).end_obj();
+        fprintf(fo, "%s\n", o.text().c_str()); fflush(fo);
+    }
+    fclose(fo);
+    return 0;
+}
+
 int main(int argc, char** argv) {
     setvbuf(stdout, NULL, _IONBF, 0);
+    if (argc >= 4 && std::string(argv[1]) == "multi") return run_multi(argv[2], argv[3]);
     if (argc < 4) return 2;
     auto cases = vj::read_ndjson(argv[1]);
     FILE* fo = fopen(argv[2], "w");
